@@ -58,8 +58,8 @@ def substReq (useSpec : Bool) : P String := do
   if useSpec then
     let σ : SubstSpec.TMap := es.map (fun e => (e.key, e.val))
     let defs : List (Sym × SubstSpec.Def) := (imapOf is).map (fun sf => (sf.1, ⟨sf.2.formals, sf.2.body⟩))
-    let app := SubstSpec.appOf envMs defs
-    return "ok " ++ encTerm (if ms then SubstSpec.msSpec app σ f else SubstSpec.mgSpec app σ f)
+    let app := SubstSpec.appOf Build.rebuild envMs defs
+    return "ok " ++ encTerm (if ms then SubstSpec.msSpec Build.rebuild app σ f else SubstSpec.mgSpec Build.rebuild app σ f)
   else
     match substitute ms envMs es is f with
     | .ok r => return "ok " ++ encTerm r
